@@ -63,6 +63,18 @@ macro_rules! vp_assert {
     }};
 }
 
+/// Oracle that only exists under the solver (it reads state kept by Kani stubs, e.g. the logging
+/// allocator): checked by Kani, skipped natively. Messages start with `VP[K]:`.
+#[macro_export]
+macro_rules! vpk_assert {
+    ($c:expr, $m:literal) => {{
+        #[cfg(kani)]
+        {
+            assert!($c, $m);
+        }
+    }};
+}
+
 #[cfg(not(kani))]
 pub fn record_failure(m: &'static str) {
     use std::io::Write;
